@@ -338,6 +338,23 @@ def r4_multipliers(ctx):
     # loop must not be conditional on anything but the presence of a subgroup
     uncond = all(not isinstance(s, (ast.If, ast.Break, ast.Continue)) for s in lp.body)
     ctx.check(uncond, a2, "group-loop-unconditional", "group multiplier applied conditionally inside the loop", node=lp)
+    # ... and the loop itself runs whenever there is a subgroup: no test on the multiplier decides whether the counts are scaled
+    guards = []
+
+    def enclosing(stmts, chain):
+        for st in stmts:
+            if st is lp:
+                guards.extend(chain)
+                return True
+            for fld, neg in (("body", False), ("orelse", True)):
+                sub = getattr(st, fld, None)
+                if isinstance(sub, list) and sub and isinstance(sub[0], ast.stmt):
+                    if enclosing(sub, chain + ([(U(st.test), neg)] if isinstance(st, (ast.If, ast.While)) else [])):
+                        return True
+        return False
+    enclosing(mc.body, [])
+    ok = all((t_.endswith(".subgroup") or t_ == "subgroup") and not neg for t_, neg in guards)
+    ctx.check(ok, a2, "group-scaling-for-every-multiplier", "the counts of a group must be scaled for every multiplier (0.5, 0 ... too); the scaling loop is guarded by %s" % [g for g in guards], node=lp)
 
     # sumByElement accumulates counts per element over all tokens
     se = ctx.func(PARSING, "_get_formula_parser.sumByElement")
@@ -732,7 +749,7 @@ RULES = [
     Rule("C01-R1", r1_lexer_table, 4, "element regex language == 118 symbols of periodic._elements, maximal munch (E1)"),
     Rule("C01-R2", r2_offsets, 5, "Z<->index offsets at every use of symbols/names/lower_names/relative_atomic_masses"),
     Rule("C01-R3", r3_no_truncation, 5, "parseAll=True at every parseString; contradictory charge marks raise"),
-    Rule("C01-R4", r4_multipliers, 8, "hydrate-part and group multipliers multiply every element count; counts summed"),
+    Rule("C01-R4", r4_multipliers, 9, "hydrate-part and group multipliers multiply every element count; counts summed"),
     Rule("C01-R5", r5_charge_signs, 5, "charge sign table, signed magnitude, key 0"),
     Rule("C01-R6", r6_affixes, 9, "prefix/suffix stripping and leading hydrate count are exact"),
     Rule("C01-R7", r7_skeleton, 30, "control skeleton: which arm runs for which token; parse actions wired; bracket pairs balanced"),
@@ -780,3 +797,5 @@ TWINS = [
     Twin("count-ge-2", [(PARSING, "if formula.count(token) > 1:", "if formula.count(token) >= 2:")]),
     Twin("index-plus-one-commuted", [(PARSING, "comp[symbols.index(k) + 1] = n", "comp[1 + symbols.index(k)] = n")]),
 ]
+
+MUTANTS.append(Mutant("group-scaling-only-above-one", [(PARSING, "            mult = t.mult\n            for term in t.subgroup:\n                term[1] *= mult\n", "            mult = t.mult\n            if mult > 1:\n                for term in t.subgroup:\n                    term[1] *= mult\n")], "C01-R4", "group-scaling-for-every-multiplier"))
